@@ -138,7 +138,7 @@ var c13Kernels = []string{"SSE4x4", "SSE16x16", "SSE4x4Direct", "SSE16x16Direct"
 func genC13Kern(t *rapid.T) *c13KernCase {
 	return &c13KernCase{
 		Kernel: rapid.SampledFrom(c13Kernels).Draw(t, "kernel"),
-		Class:  rapid.SampledFrom([]string{"uniform", "corners", "natural"}).Draw(t, "class"),
+		Class:  rapid.SampledFrom([]string{"uniform", "corners", "natural", "sparse", "sparse"}).Draw(t, "class"),
 		Seed:   rapid.Uint64().Draw(t, "seed"),
 		Mode:   rapid.IntRange(0, 9).Draw(t, "mode"),
 		Thresh: rapid.IntRange(0, 255).Draw(t, "thresh"),
@@ -164,7 +164,7 @@ func kernBytes(r *gen.Rng, class string, n int) []byte {
 			b[i] = r.Byte()
 		case "corners":
 			b[i] = corners[r.Intn(len(corners))]
-		default: // natural: smooth with small noise
+		default: // natural (also used for the byte inputs of the "sparse" coefficient class): smooth with small noise
 			b[i] = byte(int(base) + i%7 + r.Intn(5) - 2)
 		}
 	}
@@ -176,6 +176,36 @@ func kernBytes(r *gen.Rng, class string, n int) []byte {
 func kernCoeffs(r *gen.Rng, class string, n int, decoderSide bool) []int16 {
 	c := make([]int16, n)
 	ext := []int16{0, 1, -1, 2047, -2048, 32767, -32768, 16384, -16384, 8191, -8192, 255, -255}
+	if class == "sparse" {
+		// one to three non-zero coefficients of log-uniform magnitude: the sum of magnitudes sweeps
+		// the whole range in which 16-bit SIMD lanes are or are not exact
+		lim := 15
+		if !decoderSide {
+			lim = 11 // encoder-side kernels only see what 8-bit residuals can produce (|coeff| <~ 2040)
+		}
+		for blk := 0; blk+16 <= n || blk == 0; blk += 16 {
+			k := 1 + r.Intn(3)
+			for j := 0; j < k; j++ {
+				mag := 1 << uint(4+r.Intn(lim-3))
+				mag += r.Intn(mag)
+				if mag > 32767 {
+					mag = 32767
+				}
+				if !decoderSide && mag > 2040 {
+					mag = 2040
+				}
+				if r.Intn(2) == 0 {
+					mag = -mag
+				}
+				pos := blk + r.Intn(minI2(16, n-blk))
+				c[pos] = int16(mag)
+			}
+			if blk+16 > n {
+				break
+			}
+		}
+		return c
+	}
 	for i := range c {
 		switch {
 		case class == "uniform" && decoderSide:
@@ -196,6 +226,13 @@ func kernCoeffs(r *gen.Rng, class string, n int, decoderSide bool) []int16 {
 		}
 	}
 	return c
+}
+
+func minI2(a, b int) int {
+	if a < b {
+		return a
+	}
+	return b
 }
 
 func i16bytes(v []int16) []byte {
